@@ -254,12 +254,18 @@ def to_string(value: JSValue) -> str:
 
 # Arrays whose string conversion is in progress; an array met again inside itself reads as ""
 _arrays_being_joined: set = set()
+MAX_JOIN_DEPTH = 100
 
 
 def array_to_string(arr: "JSArray", separator: str = ",") -> str:
     """Array.prototype.join: undefined and null elements read as "", nested arrays are joined."""
     if id(arr) in _arrays_being_joined:
         return ""
+    if len(_arrays_being_joined) >= MAX_JOIN_DEPTH:
+        # Nested arrays are joined recursively; stop before the host stack does
+        from .errors import JSRangeError
+
+        raise JSRangeError("Maximum call stack size exceeded")
     _arrays_being_joined.add(id(arr))
     try:
         return separator.join(
